@@ -64,6 +64,10 @@ CHECKS = {
   text="Lean theorems for every entry: the +INFO block is '+INFO: ' followed by exactly the plain Gopher renderer's line of the same entry; the listing is INFO, ADMIN, VIEWS then one block per extended attribute in the entry's order; +VIEWS is ' <mime>: <size/1024 k>'; for printable sidecar lines the lines a client reads back from a block are exactly the sidecar's right-stripped lines (splitlines of the joined value), each behind one space and free of line breaks (shared with C13); '+' documents are prefixed by the exact length or +-2 (shared with C04). Tie: real '!' responses for files of several MIME classes and sizes and for directories, with every subset of the four sidecars and multi-line/odd contents, vs the model's populate + gplusBlocks byte for byte (Mod-Date masked); '$' listings through the gophermap machinery. Oracle: parsed blocks vs menu line, sidecar files, mimetypes table and size; '$' blocks == each child's '!'.",
   note="time formatting of Mod-Date masked; sidecars compared right-stripped (what the code keeps); stat/mimetypes/regex mapping are oracles fed to the model",
   technique="Lean 4 proof (block structure, sidecar round trip) + byte-level correspondence + block oracle"),
+ "C16": dict(
+  text="Lean theorems on the archive index model (flat node map + alias entries for resolved link members, walk = _getcacheinode): in every index buildIndex produces, each link entry points at a node the scan of the member list created (or the archive root), resolution never adds, removes or changes a node, and any path — also through links — lands on such a node: symbolic links inside the archive resolve only to other members; dangling, cyclic and climbing links contribute nothing; the node map is a dictionary (set/get, other keys untouched), directory creation keeps existing nodes and creates every prefix; in a link-free index a member whose proper prefixes are directories is found at its own path and nothing exists below a file; the real-file-only guard rejects archive VFSs. Tie: answers of the real VFSZip (exists/isdir/isfile/listdir/which member open reads) for seeded archives with nested members, explicit/implicit directories, dot files, non-ASCII names and relative/absolute/chained/dangling/cyclic/climbing links in shuffled order vs the model; normpath and split vs os.path. Oracle: responses for the extracted tree vs the archive through the server, prefix masked and timestamps removed; mailbox/PYG members are served as plain files.",
+  note="partial: ZIP byte format and decompression are zipfile's; the full equivalence with an extracted file system (zipvfs_equiv) is decided by the oracle, not proved; conflict-free archives with one member per name; paths containing '//' are outside the reachable domain (the answer there depends on VFSZip's entrycache memo)",
+  technique="Lean 4 proof (index invariants, link resolution inside the index) + VFS-level correspondence + extracted-tree oracle"),
  "C19": dict(
   text="Lean theorems for every option combination and every fault position (unbounded index) of the start-up model: bind and key loading precede any privilege drop, chroot then chdir('/') then setgroups(()) then setregid then setreuid, root rewritten to '/', failure of any step aborts with nothing executed after it. Tie is complete and kernel-checked: the real initialize() is executed under substituted system calls on all 16 x (1 + fault positions) points and `table_agrees` proves the executed table equals the model's.",
   note="trusted: the substitution of os/pwd/grp/socket/ssl entry points observes every privileged call; kernel behaviour of the real system calls and the detach fork are not modelled",
